@@ -12,6 +12,7 @@ import (
 	"sort"
 	"strings"
 
+	"golang.org/x/tools/go/ast/astutil"
 	"golang.org/x/tools/go/ssa"
 )
 
@@ -63,11 +64,9 @@ type Clause struct {
 	Binders []string
 	Exists  bool // binders are existential
 	Expr    ast.Expr
-	Lit     *ast.FuncLit
 	Info    *types.Info
 	Except  []*Clause // known-finding predicates: the clause is proved under !except
-	resObjs []types.Object
-	bindObj []types.Object
+	nRes    int       // placeholders 0..nRes-1 are the results, then the binders
 }
 
 type rawClause struct {
@@ -380,65 +379,91 @@ func (e *Engine) parseClause(ct *Contract, rc rawClause, pos token.Pos, withResu
 	}
 	cl.Text = strings.TrimSpace(rc.text)
 	goText := rewriteLogic(body)
-	var params []string
-	if withResults {
-		sig := ct.Fn.Signature
-		for i, r := range ct.ResultNames {
-			params = append(params, fmt.Sprintf("%s %s", r, types.TypeString(sig.Results().At(i).Type(), types.RelativeTo(e.pkg.Types))))
-		}
-	}
-	for _, b := range cl.Binders {
-		params = append(params, b+" int")
-	}
-	retT := "bool"
-	if rc.kind == "decreases" || rc.kind == "allocates" || rc.kind == "cases" {
-		retT = "int"
-	}
-	src := "func(" + strings.Join(params, ", ") + ") " + retT + " { return " + goText + " }"
-	ex, err := parser.ParseExpr(src)
+	ex, err := parser.ParseExpr(goText)
 	if err != nil {
 		return nil, fmt.Errorf("%s line %d: parse %q: %v", ct.Key, rc.line, rc.text, err)
 	}
-	// alpha-rename header names to source names
-	if len(ct.renames) > 0 {
-		skip := map[*ast.Ident]bool{}
-		ast.Inspect(ex, func(n ast.Node) bool {
-			switch x := n.(type) {
-			case *ast.SelectorExpr:
-				skip[x.Sel] = true
-			case *ast.KeyValueExpr:
-				if id, ok := x.Key.(*ast.Ident); ok {
-					skip[id] = true
-				}
-			case *ast.Ident:
-				if to, ok := ct.renames[x.Name]; ok && !skip[x] {
-					x.Name = to
-				}
-			}
-			return true
-		})
+	// results and binders become typed placeholder calls specVar[T](i): the expression is then type-checked
+	// directly in the scope at pos (a function-literal wrapper would lose the position and with it Go's
+	// declaration-order scoping of shadowed names)
+	varIdx := map[string]int{}
+	varType := map[string]string{}
+	if withResults {
+		sig := ct.Fn.Signature
+		for i, r := range ct.ResultNames {
+			varIdx[r] = i
+			varType[r] = types.TypeString(sig.Results().At(i).Type(), types.RelativeTo(e.pkg.Types))
+		}
+		cl.nRes = len(ct.ResultNames)
 	}
+	for i, b := range cl.Binders {
+		varIdx[b] = cl.nRes + i
+		varType[b] = "int"
+	}
+	skip := map[*ast.Ident]bool{}
+	ast.Inspect(ex, func(n ast.Node) bool {
+		switch x := n.(type) {
+		case *ast.SelectorExpr:
+			skip[x.Sel] = true
+		case *ast.KeyValueExpr:
+			if id, ok := x.Key.(*ast.Ident); ok {
+				skip[id] = true
+			}
+		}
+		return true
+	})
+	mk := func(name string) ast.Expr {
+		te, _ := parser.ParseExpr(varType[name])
+		return &ast.CallExpr{Fun: &ast.IndexExpr{X: ast.NewIdent("specVar"), Index: te}, Args: []ast.Expr{&ast.BasicLit{Kind: token.INT, Value: fmt.Sprint(varIdx[name])}}}
+	}
+	res := astutil.Apply(ex, func(c *astutil.Cursor) bool {
+		if id, ok := c.Node().(*ast.Ident); ok && !skip[id] {
+			if _, isVar := varIdx[id.Name]; isVar {
+				c.Replace(mk(id.Name))
+				return false
+			}
+			if to, ok := ct.renames[id.Name]; ok {
+				id.Name = to
+			}
+		}
+		return true
+	}, nil)
+	ex = res.(ast.Expr)
 	info := &types.Info{Types: map[ast.Expr]types.TypeAndValue{}, Uses: map[*ast.Ident]types.Object{}, Defs: map[*ast.Ident]types.Object{}, Selections: map[*ast.SelectorExpr]*types.Selection{}, Instances: map[*ast.Ident]types.Instance{}}
 	if err := types.CheckExpr(e.fset, e.pkg.Types, pos, ex, info); err != nil {
 		return nil, fmt.Errorf("%s line %d: %q: %v", ct.Key, rc.line, rc.text, err)
 	}
-	cl.Lit = ex.(*ast.FuncLit)
-	cl.Expr = cl.Lit.Body.List[0].(*ast.ReturnStmt).Results[0]
-	cl.Info = info
-	// objects of the literal's parameters, in order
-	var objs []types.Object
-	for _, f := range cl.Lit.Type.Params.List {
-		for _, n := range f.Names {
-			objs = append(objs, info.Defs[n])
+	wantBool := !(rc.kind == "decreases" || rc.kind == "allocates" || rc.kind == "cases")
+	if tv, ok := info.Types[ex]; ok {
+		if wantBool && !isBoolType(tv.Type) {
+			return nil, fmt.Errorf("%s line %d: %q is not a boolean expression", ct.Key, rc.line, rc.text)
 		}
 	}
-	if withResults {
-		cl.resObjs = objs[:len(ct.ResultNames)]
-		cl.bindObj = objs[len(ct.ResultNames):]
-	} else {
-		cl.bindObj = objs
-	}
+	cl.Expr = ex
+	cl.Info = info
 	return cl, nil
+}
+
+// specVarIndex recognises the placeholder call specVar[T](i).
+func specVarIndex(ex ast.Expr) (int, bool) {
+	c, ok := ex.(*ast.CallExpr)
+	if !ok || len(c.Args) != 1 {
+		return 0, false
+	}
+	ix, ok := c.Fun.(*ast.IndexExpr)
+	if !ok {
+		return 0, false
+	}
+	if id, ok := ix.X.(*ast.Ident); !ok || id.Name != "specVar" {
+		return 0, false
+	}
+	lit, ok := c.Args[0].(*ast.BasicLit)
+	if !ok {
+		return 0, false
+	}
+	var i int
+	fmt.Sscanf(lit.Value, "%d", &i)
+	return i, true
 }
 
 // resultDef: for a clause of the form `result == E` (single result) returns E.
@@ -458,7 +483,7 @@ func (cl *Clause) resultDef(ct *Contract) ast.Expr {
 	if !ok || b.Op != token.EQL {
 		return nil
 	}
-	if id, ok := b.X.(*ast.Ident); ok && id.Name == ct.ResultNames[0] && cl.Info.Uses[id] == cl.resObjs[0] {
+	if i, ok := specVarIndex(b.X); ok && i == 0 && cl.nRes == 1 {
 		return b.Y
 	}
 	return nil
